@@ -17,6 +17,7 @@ EXPLANATION = (
     "of two negated literals for every unordered pair of nodes + [extra_node] (inner loop over nodes[i + 1:]) and exactly one clause with all of them "
     "positive; K5 ConstraintAD.update_weights gives every member (pos, ad_negate(pos, neg)) and the extra node (complement, ad_negate(complement, one())). "
     "Equivalence for all assignments is not decided."
+    " Added after seed round 6: K6 the translation memo of _break_cycles is keyed by the node only although the translation depends on is_evidence: passes with different is_evidence values get different tables."
 )
 TECHNIQUE = "static analysis: clause-template extraction from the AST, decision-table extraction of _break_cycles"
 LEVEL_TEXT = EXPLANATION
